@@ -35,7 +35,19 @@ impl Node {
 
 /// key: relative path as raw bytes (components joined by '/'), no leading slash.
 #[derive(Clone, PartialEq, Eq, Hash, PartialOrd, Ord, Debug, Default, Serialize, Deserialize)]
+#[serde(into = "Vec<(Vec<u8>, Node)>", from = "Vec<(Vec<u8>, Node)>")]
 pub struct Snapshot(pub BTreeMap<Vec<u8>, Node>);
+
+impl From<Snapshot> for Vec<(Vec<u8>, Node)> {
+    fn from(s: Snapshot) -> Self {
+        s.0.into_iter().collect()
+    }
+}
+impl From<Vec<(Vec<u8>, Node)>> for Snapshot {
+    fn from(v: Vec<(Vec<u8>, Node)>) -> Self {
+        Snapshot(v.into_iter().collect())
+    }
+}
 
 fn join_key(prefix: &[u8], name: &[u8]) -> Vec<u8> {
     if prefix.is_empty() {
